@@ -28,8 +28,8 @@ MANIFEST = {
             'results and Z_p recombination values on every run; the simulator (fake transports, real MessageExchanger/'
             'Runtime). Pickle is an opaque token in the model (round trip on the payload pool is checked by the harness '
             'only). Secure floats / group elements / GF(2^k): implementation-level oracle only (their _input/_output '
-            'plumbing is not modelled); open findings there: F-C07-3 (secure float output with empty receiver list raises '
-            'ValueError; run alone in its own simulator), F-C07-4 (list of tuple-share group elements: non-receiver gets r*n '
+            'plumbing is not modelled); F-C07-3 (secure float output with empty receiver list raised ValueError) is '
+            'repaired in /repo (c7bb64a) and checked as an ordinary case; open finding there: F-C07-4 (list of tuple-share group elements: non-receiver gets r*n '
             'Nones). Lists with duplicate party indices are outside the theorems that need NoDup and are not generated. '
             'm <= 4 exhaustive for subsets (m <= 3 for arbitrary graphs), m = 5..7 sampled; recombined values compared for '
             'a random 30% of numeric outputs in the quick tier.',
@@ -405,9 +405,9 @@ def transfer_coq(op, m):
 
 
 def is_risky(op, m):
-    """Call forms that kill the calling coroutine (open finding F-C07-3): run in their own simulator."""
-    if op['op'] == 'output' and op['stype'] == 'secflt' and 'receivers' in op:
-        return len(arglist(op['receivers'], m)) == 0
+    """Call forms that kill the calling coroutine: run in their own simulator.  None since F-C07-3 (secure float
+    output with an empty receiver list) was repaired in /repo (c7bb64a); such calls are ordinary batch cases now and
+    the canonical witness is still run alone as well."""
     return False
 
 
